@@ -50,13 +50,13 @@ type engine struct {
 	saved map[uint64]map[string]int64
 
 	// pool monitor (C05)
-	pmu         sync.Mutex
-	outstanding map[*pipeline.Event]int64
-	maxOut      int
-	gets, backs int64
-	poolViol    []Viol
-	sizeClasses map[int]bool
-	waitersSeen int64
+	pmu            sync.Mutex
+	outstanding    map[*pipeline.Event]int64
+	maxOut         int
+	gets, backs    int64
+	poolViol       []Viol
+	sizeClasses    map[int]bool
+	waitersSeen    int64
 	refusedByInput int64
 }
 
